@@ -91,8 +91,10 @@ theorem jws_compact_received (o : Oracle) (cfg : Cfg) (d : Bytes)
   subst hmem
   obtain ⟨sk, hk, hacc⟩ := hver.accepted
   refine ⟨hs, p, sg, hdr, sig, sk, hd, n1, n2, h1, h2, hHO, hsig, ?_, ?_, ?_, hacc, ?_⟩
-  · simpa [Signature.alg] using hver.named
-  · simpa [Signature.alg] using hver.allowed
+  · have := hver.named
+    rwa [Signature.alg_of_protected_only _ hdr rfl rfl] at this
+  · have := hver.allowed
+    rwa [Signature.alg_of_protected_only _ hdr rfl rfl] at this
   · simpa [findKeyQuery, optHeaderWire] using hk
   · simpa [Returned] using hret
 
@@ -269,6 +271,11 @@ def toyO2 : Oracle := fun q =>
 example : (match (parseJSON [3] >>= verify toyCfg).run toyO2 with
     | .ok (some h, none, p) => h.alg == "HS256" && p == [2]
     | _ => false) = true := by decide
+
+/-- `alg` only in the unprotected header, next to a protected header that names none
+    (RFC 7515 §4.1.1): the unprotected algorithm is used; a protected `alg` always wins -/
+example : ({ prot := some { alg := "" }, header := some { alg := "HS256" } } : Signature).alg = "HS256" := by decide
+example : ({ prot := some { alg := "ES256" }, header := some { alg := "none" } } : Signature).alg = "ES256" := by decide
 
 /-- a forged MAC is refused -/
 example : (match (parseCompact [0x68, 0x2e, 0x70, 0x2e, 0x78] >>= verify toyCfg).run toyO2 with
